@@ -158,6 +158,7 @@ type Frame struct {
 	DNS       *DNSHdr
 	AppProto  string // dhcp, dns, mdns, llmnr, nbns, ssdp, ""
 	Errs      []string
+	Notes     []string // protocol deviations outside what the properties state (observations only)
 }
 
 func (f *Frame) errf(format string, a ...interface{}) {
@@ -306,8 +307,12 @@ func (f *Frame) decodeIP6(p []byte) {
 	if ip.Dst.IsMulticast() {
 		d := ip.Dst.As16()
 		want := MAC{0x33, 0x33, d[12], d[13], d[14], d[15]}
-		if f.Dst != want && !f.Dst.IsBroadcast() && f.Dst.IsMulticast() {
-			f.errf("ipv6: multicast destination %s sent to mac %s, want %s", ip.Dst, f.Dst, want)
+		if f.Dst != want {
+			if f.Dst.IsMulticast() {
+				f.errf("ipv6: multicast destination %s sent to the wrong multicast mac %s, want %s", ip.Dst, f.Dst, want)
+			} else {
+				f.errf("ipv6: multicast destination %s sent to the unicast mac %s, want %s", ip.Dst, f.Dst, want)
+			}
 		}
 	}
 	switch ip.NextHeader {
@@ -350,7 +355,7 @@ func (f *Frame) decodeUDP(p []byte, v6 bool) {
 			f.errf("udp: checksum does not verify")
 		}
 		if ck == 0 && v6 {
-			f.errf("udp: zero checksum over IPv6")
+			f.Notes = append(f.Notes, "udp: zero checksum over IPv6 (RFC 8200 requires one)")
 		}
 	}
 	switch {
